@@ -245,5 +245,563 @@ theorem C18_layerB_shard_lock_bounded {b b' : BState} {v : Option Nat} {sh : Nat
     · exact Or.inl rfl
     · exact Or.inr ⟨hown, by simp only [hs, swMeasure]; omega⟩
 
+/-! ## C01  the upper bound -/
+
+/-- the worker has CHECKED that there is room for the put in its hands, and nobody else can use the room up
+    (every other thread only subtracts) -/
+def BBound (b : BState) : Prop :=
+  b.g.adm.used + (match b.w with
+    | .insert c => c.w
+    | .add c => c.w
+    | _ => 0) ≤ b.g.adm.max
+
+/-- the worker's `UpdateWeight` raises the weight of a charged id by more than the free space: the recorded defect
+    (`Cached.C01_counterexample` is the Layer A witness) -/
+def UnsafeUpdate (b : BState) (a : Act) : Prop :=
+  a = .worker ∧ ∃ id w h, b.w = .update id w h ∧
+    (∃ wk, b.g.adm.kw.get? id = some wk ∧ w - wk.weight > b.g.adm.max - b.g.adm.used)
+
+theorem bbound_wtrans {b b' : BState} (hb : BInv b) (hbd : BBound b) (h : WTrans b b')
+    (hsafe : ∀ id w hh wk, b.w = .update id w hh → b.g.adm.kw.get? id = some wk →
+      w - wk.weight ≤ b.g.adm.max - b.g.adm.used) : BBound b' := by
+  have hstale := hb.staleSpace
+  have hvict := hb.pendingPos.2.2.1
+  unfold BBound at hbd ⊢
+  cases h
+  case updateApplied id w hh wk hw hfree hg =>
+    have := hsafe id w hh wk hw hg
+    simp [finishCmd, hw] at hbd ⊢; omega
+  all_goals simp [finishCmd, rejectCmd, ttlPut, ttlDelete, WPc.space?, WPc.victim?, *] at *
+  all_goals omega
+
+@[simp] theorem sweepNext_g (b : BState) (n s : Nat) (r : List (Nat × Nat)) : (sweepNext b n s r).g = b.g := by
+  unfold sweepNext; split <;> rfl
+
+@[simp] theorem sweepNext_w (b : BState) (n s : Nat) (r : List (Nat × Nat)) : (sweepNext b n s r).w = b.w := by
+  unfold sweepNext; split <;> rfl
+
+theorem bbound_strans {b b' : BState} (hb : BInv b) (hbd : BBound b) (h : STrans b b') : BBound b' := by
+  have hvict := hb.pendingPos.2.2.2
+  unfold BBound at hbd ⊢
+  cases h
+  all_goals simp [SPc.victim?, *] at *
+  all_goals omega
+
+theorem BBound.frame {b b' : BState} (hbd : BBound b) (hadm : b'.g.adm = b.g.adm) (hw : b'.w = b.w) : BBound b' := by
+  unfold BBound at hbd ⊢
+  rw [hadm, hw]; exact hbd
+
+/-- PARTIAL (the statement without the side condition is false of the code: the worker's `UpdateWeight` applies any
+    increase without looking at the limit — `Cached.C01_counterexample`).  Every action of every thread preserves the
+    bound, except the worker's `UpdateWeight` whose increase exceeds the free space. -/
+theorem C01_layerB_bound_partial {b b' : BState} {a : Act} {o o' : Oracle} (hb : BInv b) (hbd : BBound b)
+    (h : stepB b a o = .ok (b', o')) (hsafe : ¬ UnsafeUpdate b a) : BBound b' := by
+  cases a with
+  | issue i r =>
+    simp only [stepB] at h
+    split at h
+    · rename_i b1 hi
+      simp only [Except.ok.injEq, Prod.mk.injEq] at h; obtain ⟨rfl, rfl⟩ := h
+      unfold issue at hi
+      split at hi
+      · simp only [Except.ok.injEq] at hi; subst hi; exact hbd.frame rfl rfl
+      · cases hi
+    · cases h
+  | client i =>
+    obtain ⟨hw, _, _, _, hadm, _⟩ := ctrans_frame (clientAct_trans h)
+    exact hbd.frame hadm hw
+  | worker =>
+    refine bbound_wtrans hb hbd (workerAct_trans h) ?_
+    intro id w hh wk hw hg
+    by_cases hlt : w - wk.weight > b.g.adm.max - b.g.adm.used
+    · exact absurd ⟨rfl, id, w, hh, hw, wk, hg, hlt⟩ hsafe
+    · omega
+  | sweeper v =>
+    simp only [stepB] at h
+    split at h
+    · rename_i b1 hs
+      simp only [Except.ok.injEq, Prod.mk.injEq] at h; obtain ⟨rfl, rfl⟩ := h
+      exact bbound_strans hb hbd (sweeperAct_trans hs)
+    · cases h
+  | consumer =>
+    simp only [stepB] at h
+    split at h
+    · rename_i g' out o1 hc
+      simp only [Except.ok.injEq, Prod.mk.injEq] at h; obtain ⟨rfl, rfl⟩ := h
+      exact hbd.frame (by rw [consumerStep_frame hc]) rfl
+    · cases h
+  | advance d =>
+    simp only [stepB, Except.ok.injEq, Prod.mk.injEq] at h; obtain ⟨rfl, rfl⟩ := h
+    exact hbd.frame rfl rfl
+
+/-- interleavings in which no worker `UpdateWeight` action exceeds the free space -/
+inductive ReachSafe (cfg : Cfg) (now : Nat) (seeds : List Nat) (clients : Nat) : BState → Prop where
+  | init : ReachSafe cfg now seeds clients (BState.init cfg now seeds clients)
+  | step {b b' : BState} {a : Act} {o o' : Oracle} :
+      ReachSafe cfg now seeds clients b → stepB b a o = .ok (b', o') → ¬ UnsafeUpdate b a →
+      ReachSafe cfg now seeds clients b'
+
+theorem ReachSafe.reach {cfg : Cfg} {now : Nat} {seeds : List Nat} {clients : Nat} {b : BState}
+    (h : ReachSafe cfg now seeds clients b) : Reach cfg now seeds clients b := by
+  induction h with
+  | init => exact .init
+  | step _ hs _ ih => exact .step ih hs
+
+/-- no action changes the configuration -/
+theorem stepB_cfg {b b' : BState} {a : Act} {o o' : Oracle} (h : stepB b a o = .ok (b', o')) : b'.g.cfg = b.g.cfg := by
+  cases a with
+  | issue i r =>
+    simp only [stepB] at h
+    split at h
+    · rename_i b1 hi
+      simp only [Except.ok.injEq, Prod.mk.injEq] at h; obtain ⟨rfl, rfl⟩ := h
+      unfold issue at hi
+      split at hi
+      · simp only [Except.ok.injEq] at hi; subst hi; rfl
+      · cases hi
+    · cases h
+  | client i => exact (ctrans_frame (clientAct_trans h)).2.2.2.2.2
+  | worker => exact wtrans_cfg (workerAct_trans h)
+  | sweeper v =>
+    simp only [stepB] at h
+    split at h
+    · rename_i b1 hs
+      simp only [Except.ok.injEq, Prod.mk.injEq] at h; obtain ⟨rfl, rfl⟩ := h
+      exact (strans_frame (sweeperAct_trans hs)).2.2.2.2.1
+    · cases h
+  | consumer =>
+    simp only [stepB] at h
+    split at h
+    · rename_i g' out o1 hc
+      simp only [Except.ok.injEq, Prod.mk.injEq] at h; obtain ⟨rfl, rfl⟩ := h
+      show g'.cfg = b.g.cfg
+      rw [consumerStep_frame hc]
+    · cases h
+  | advance d =>
+    simp only [stepB, Except.ok.injEq, Prod.mk.injEq] at h; obtain ⟨rfl, rfl⟩ := h
+    rfl
+
+theorem reach_cfg {cfg : Cfg} {now : Nat} {seeds : List Nat} {clients : Nat} {b : BState}
+    (h : Reach cfg now seeds clients b) : b.g.cfg = cfg := by
+  induction h with
+  | init => rfl
+  | step _ hs ih => rw [stepB_cfg hs, ih]
+
+theorem bbound_init (cfg : Cfg) (now : Nat) (seeds : List Nat) (clients : Nat) (h : 0 ≤ cfg.maxWeight) :
+    BBound (BState.init cfg now seeds clients) := by
+  simp [BBound, BState.init, State.init, h]
+
+theorem reachSafe_bbound {cfg : Cfg} {now : Nat} {seeds : List Nat} {clients : Nat} {b : BState}
+    (h : ReachSafe cfg now seeds clients b) (hmax : 0 ≤ cfg.maxWeight) : BBound b := by
+  induction h with
+  | init => exact bbound_init cfg now seeds clients hmax
+  | step hr hs hsafe ih => exact C01_layerB_bound_partial (binv_reach hr.reach) ih hs hsafe
+
+/-- PARTIAL (side condition `ReachSafe`, see `C01_layerB_bound_partial`): along every interleaving none of whose worker
+    `UpdateWeight` actions exceeds the free space, the total lies within `[0, maxWeight]` AT EVERY INSTANT. -/
+theorem C01_layerB_bound_partial' {cfg : Cfg} {now : Nat} {seeds : List Nat} {clients : Nat} {b : BState}
+    (h : ReachSafe cfg now seeds clients b) (hmax : 0 ≤ cfg.maxWeight) :
+    0 ≤ b.g.adm.used ∧ b.g.adm.used ≤ cfg.maxWeight := by
+  have hb := binv_reach h.reach
+  refine ⟨hb.used_nonneg, ?_⟩
+  have hbd := reachSafe_bbound h hmax
+  have hm : b.g.adm.max = cfg.maxWeight := by rw [hb.maxFixed, reach_cfg h.reach]
+  unfold BBound at hbd
+  rw [hm] at hbd
+  have hpos := hb.pendingPos
+  split at hbd
+  · rename_i c hc; have := (hpos.2.1 c hc).1; omega
+  · rename_i c hc; have := hpos.1 c hc; omega
+  · omega
+
+/-! ## C04  a soft-deleted entry never comes back — per atomic action -/
+
+/-- what one action may do to the soft-deleted entries of the store -/
+def SoftStep (st st' : AMap Nat Entry) : Prop :=
+  ∀ k e, st.get? k = some e → e.soft = true →
+    st'.get? k = none ∨ ∃ e', st'.get? k = some e' ∧ (e'.soft = true ∨ e'.id ≠ e.id)
+
+theorem SoftStep.refl (st : AMap Nat Entry) : SoftStep st st :=
+  fun _ e h hs => Or.inr ⟨e, h, Or.inl hs⟩
+
+theorem SoftStep.del (st : AMap Nat Entry) (x : Nat) : SoftStep st (st.del x) := by
+  intro k e h hs
+  rw [AMap.get?_del]
+  split
+  · exact Or.inl rfl
+  · exact Or.inr ⟨e, h, Or.inl hs⟩
+
+/-- overwriting the entry of `x` by one that is soft whenever the old one was -/
+theorem SoftStep.setKeep (st : AMap Nat Entry) (x : Nat) (e0 e1 : Entry) (h0 : st.get? x = some e0)
+    (h1 : e0.soft = true → e1.soft = true) : SoftStep st (st.set x e1) := by
+  intro k e h hs
+  rw [AMap.get?_set]
+  split
+  · rename_i hx; subst hx
+    rw [h0] at h; cases h
+    exact Or.inr ⟨e1, rfl, Or.inl (h1 hs)⟩
+  · exact Or.inr ⟨e, h, Or.inl hs⟩
+
+/-- storing an entry under an id no entry carries -/
+theorem SoftStep.setFresh (st : AMap Nat Entry) (x : Nat) (e1 : Entry) (h1 : ∀ k e, st.get? k = some e → e.id ≠ e1.id) :
+    SoftStep st (st.set x e1) := by
+  intro k e h hs
+  rw [AMap.get?_set]
+  split
+  · exact Or.inr ⟨e1, rfl, Or.inr (fun he => h1 k e h he.symm)⟩
+  · exact Or.inr ⟨e, h, Or.inl hs⟩
+
+theorem soft_wtrans {b b' : BState} (hb : BInv b) (h : WTrans b b') : SoftStep b.g.store b'.g.store := by
+  have hfresh : ∀ c, b.w = .storePut c → ∀ k e, b.g.store.get? k = some e → e.id ≠ c.id := by
+    intro c hc k e hg he
+    have hu : e.id ∈ usedIds b := by
+      rw [mem_usedIds]; exact Or.inl ⟨(k, e), AMap.mem_of_get? hg, rfl⟩
+    have := (hb.freshIds.2.2.2.2.1 e.id hu).1
+    rw [he] at this
+    simp [occ, hc, WPc.freshId?] at this
+  cases h
+  case evStore => simp only [applyEvict_store]; exact SoftStep.del _ _
+  case storePutPlain c hw ht => exact SoftStep.setFresh _ _ _ (hfresh c hw)
+  case storePutTtl c t e hw ht => exact SoftStep.setFresh _ _ _ (hfresh c hw)
+  case delStoreSome => exact SoftStep.del _ _
+  all_goals exact SoftStep.refl _
+
+theorem soft_strans {b b' : BState} (h : STrans b b') : SoftStep b.g.store b'.g.store := by
+  cases h
+  case store => simp only [sweepNext_g, applyEvict_store]; exact SoftStep.del _ _
+  all_goals simp only [sweepNext_g]
+  all_goals exact SoftStep.refl _
+
+theorem soft_ctrans {b b' : BState} {i : Nat} (h : CTrans b i b') : SoftStep b.g.store b'.g.store := by
+  cases h
+  case getPool hp => rw [poolAdd_frame hp]; exact SoftStep.refl _
+  case delMark k hpc =>
+    simp only [setClient]
+    split
+    · rename_i e he; exact SoftStep.setKeep _ _ e _ he (fun _ => rfl)
+    · exact SoftStep.refl _
+  case upUpdate k v w ttl rm e ne uw hpc he => exact SoftStep.setKeep _ _ e _ he (fun h => h)
+  case upAfterSame id uw old new hpc =>
+    rcases upAfterIndex_spec b i id uw with ⟨_, h⟩ | ⟨_, _, h⟩ | h <;> rw [h] <;> exact SoftStep.refl _
+  case upAfterPut pc id e uw _ _ _ =>
+    rcases upAfterIndex_spec { b with g := ttlPut b.g id e } i id uw with ⟨_, h⟩ | ⟨_, _, h⟩ | h <;> rw [h] <;>
+      exact SoftStep.refl _
+  case upAfterDelete id e uw _ _ =>
+    rcases upAfterIndex_spec { b with g := ttlDelete b.g id e } i id uw with ⟨_, h⟩ | ⟨_, _, h⟩ | h <;> rw [h] <;>
+      exact SoftStep.refl _
+  all_goals exact SoftStep.refl _
+
+/-- C04 at action granularity: no atomic action of any thread turns a soft-deleted entry back into a live one;
+    after the action the key is gone, or still soft-deleted, or held by a DIFFERENT entry (a later put). -/
+theorem C04_layerB_soft_permanent {b b' : BState} {a : Act} {o o' : Oracle} (hb : BInv b)
+    (h : stepB b a o = .ok (b', o')) {k : Nat} {e : Entry} (hk : b.g.store.get? k = some e) (hs : e.soft = true) :
+    b'.g.store.get? k = none ∨ ∃ e', b'.g.store.get? k = some e' ∧ (e'.soft = true ∨ e'.id ≠ e.id) := by
+  suffices hss : SoftStep b.g.store b'.g.store from hss k e hk hs
+  cases a with
+  | issue i r =>
+    simp only [stepB] at h
+    split at h
+    · rename_i b1 hi
+      simp only [Except.ok.injEq, Prod.mk.injEq] at h; obtain ⟨rfl, rfl⟩ := h
+      unfold issue at hi
+      split at hi
+      · simp only [Except.ok.injEq] at hi; subst hi; exact SoftStep.refl _
+      · cases hi
+    · cases h
+  | client i => exact soft_ctrans (clientAct_trans h)
+  | worker => exact soft_wtrans hb (workerAct_trans h)
+  | sweeper v =>
+    simp only [stepB] at h
+    split at h
+    · rename_i b1 hs'
+      simp only [Except.ok.injEq, Prod.mk.injEq] at h; obtain ⟨rfl, rfl⟩ := h
+      exact soft_strans (sweeperAct_trans hs')
+    · cases h
+  | consumer =>
+    simp only [stepB] at h
+    split at h
+    · rename_i g' out o1 hc
+      simp only [Except.ok.injEq, Prod.mk.injEq] at h; obtain ⟨rfl, rfl⟩ := h
+      show SoftStep b.g.store g'.store
+      rw [consumerStep_frame hc]; exact SoftStep.refl _
+    · cases h
+  | advance d =>
+    simp only [stepB, Except.ok.injEq, Prod.mk.injEq] at h; obtain ⟨rfl, rfl⟩ := h
+    exact SoftStep.refl _
+
+/-! ## C02  a read returns the value the store holds for THAT key at the read's `store.get` action -/
+
+/-- The `store.get` action of a `get(k)`: a miss finishes the call with `None`; a hit moves on to `pool.add`
+    carrying the value of the CURRENT, alive entry of `k` (the store itself is not changed). -/
+theorem C02_layerB_get_store {b b' : BState} {i k : Nat} {o o' : Oracle} (hpc : b.cl[i]? = some (.getStore k))
+    (h : clientAct b i o = .ok (b', o')) :
+    ((∃ e, b.g.store.get? k = some e ∧ e.alive b.g.now = true ∧ b'.cl = b.cl.set i (.getPool k e.value) ∧
+        b'.res = b.res) ∨
+     ((∀ e, b.g.store.get? k = some e → e.alive b.g.now = false) ∧ b'.cl = b.cl.set i .idle ∧
+        b'.res = b.res.set i (.value none :: b.res.getD i []))) ∧
+    b'.g.store = b.g.store ∧ o' = o := by
+  unfold clientAct at h
+  simp only [hpc] at h
+  split at h
+  · rename_i e he
+    split at h
+    · rename_i ha
+      simp only [Except.ok.injEq, Prod.mk.injEq] at h; obtain ⟨rfl, rfl⟩ := h
+      exact ⟨Or.inl ⟨e, he, ha, rfl, rfl⟩, rfl, rfl⟩
+    · rename_i ha
+      simp only [Except.ok.injEq, Prod.mk.injEq] at h; obtain ⟨rfl, rfl⟩ := h
+      refine ⟨Or.inr ⟨?_, rfl, rfl⟩, rfl, rfl⟩
+      intro e' he'
+      rw [he] at he'; cases he'
+      simpa using ha
+  · rename_i he
+    simp only [Except.ok.injEq, Prod.mk.injEq] at h; obtain ⟨rfl, rfl⟩ := h
+    refine ⟨Or.inr ⟨?_, rfl, rfl⟩, rfl, rfl⟩
+    intro e' he'
+    rw [he] at he'; cases he'
+
+/-- The `pool.add` action of that `get(k)` finishes the call with exactly the value picked up at `store.get`. -/
+theorem C02_layerB_get_pool {b b' : BState} {i k v : Nat} {o o' : Oracle} (hpc : b.cl[i]? = some (.getPool k v))
+    (h : clientAct b i o = .ok (b', o')) :
+    b'.cl = b.cl.set i .idle ∧ b'.res = b.res.set i (.value (some v) :: b.res.getD i []) := by
+  unfold clientAct at h
+  simp only [hpc] at h
+  split at h
+  · simp only [Except.ok.injEq, Prod.mk.injEq] at h; obtain ⟨rfl, rfl⟩ := h
+    exact ⟨rfl, rfl⟩
+  · cases h
+
+theorem wtrans_cl {b b' : BState} (h : WTrans b b') : b'.cl = b.cl := by
+  cases h <;> simp [finishCmd, rejectCmd]
+
+theorem ctrans_cl {b b' : BState} {j : Nat} (h : CTrans b j b') : ∃ pc', b'.cl = b.cl.set j pc' := by
+  cases h
+  case upAfterSame id uw old new hpc =>
+    rcases upAfterIndex_spec b j id uw with ⟨_, h⟩ | ⟨_, _, h⟩ | h <;> rw [h] <;> exact ⟨_, rfl⟩
+  case upAfterPut pc id e uw _ _ _ =>
+    rcases upAfterIndex_spec { b with g := ttlPut b.g id e } j id uw with ⟨_, h⟩ | ⟨_, _, h⟩ | h <;> rw [h] <;>
+      exact ⟨_, rfl⟩
+  case upAfterDelete id e uw _ _ =>
+    rcases upAfterIndex_spec { b with g := ttlDelete b.g id e } j id uw with ⟨_, h⟩ | ⟨_, _, h⟩ | h <;> rw [h] <;>
+      exact ⟨_, rfl⟩
+  all_goals exact ⟨_, rfl⟩
+
+/-- Nobody but client `i` itself moves client `i`: between its `store.get` and its `pool.add` the value it carries
+    cannot be touched by any other thread. -/
+theorem other_threads_keep_pc {b b' : BState} {a : Act} {o o' : Oracle} {i : Nat}
+    (h : stepB b a o = .ok (b', o')) (h1 : a ≠ .client i) (h2 : ∀ r, a ≠ .issue i r) : b'.cl[i]? = b.cl[i]? := by
+  cases a with
+  | issue j r =>
+    have hne : j ≠ i := by intro e; subst e; exact h2 r rfl
+    simp only [stepB] at h
+    split at h
+    · rename_i b1 hi
+      simp only [Except.ok.injEq, Prod.mk.injEq] at h; obtain ⟨rfl, rfl⟩ := h
+      unfold issue at hi
+      split at hi
+      · simp only [Except.ok.injEq] at hi; subst hi
+        simp [setClient, List.getElem?_set_ne hne]
+      · cases hi
+    · cases h
+  | client j =>
+    have hne : j ≠ i := by intro e; subst e; exact h1 rfl
+    obtain ⟨pc', hcl⟩ := ctrans_cl (clientAct_trans h)
+    rw [hcl, List.getElem?_set_ne hne]
+  | worker => rw [wtrans_cl (workerAct_trans h)]
+  | sweeper v =>
+    simp only [stepB] at h
+    split at h
+    · rename_i b1 hs'
+      simp only [Except.ok.injEq, Prod.mk.injEq] at h; obtain ⟨rfl, rfl⟩ := h
+      rw [(strans_frame (sweeperAct_trans hs')).2.1]
+    · cases h
+  | consumer =>
+    simp only [stepB] at h
+    split at h
+    · simp only [Except.ok.injEq, Prod.mk.injEq] at h; obtain ⟨rfl, rfl⟩ := h
+      rfl
+    · cases h
+  | advance d =>
+    simp only [stepB, Except.ok.injEq, Prod.mk.injEq] at h; obtain ⟨rfl, rfl⟩ := h
+    rfl
+
+/-- C02 at action granularity: the value a `get(k)` finally returns is the value of the entry that the store held
+    for `k` — and that was alive — at the instant of the call's `store.get` action; never another key's. -/
+theorem C02_layerB_read_current {b0 b1 b2 b3 : BState} {i k : Nat} {o0 o1 o2 o3 : Oracle}
+    (hpc : b0.cl[i]? = some (.getStore k)) (hget : clientAct b0 i o0 = .ok (b1, o1))
+    (hsame : b2.cl[i]? = b1.cl[i]?)      -- whatever the other threads did in between (`other_threads_keep_pc`)
+    (hpool : clientAct b2 i o2 = .ok (b3, o3)) (hbusy : b1.cl[i]? ≠ some .idle) :
+    ∃ e, b0.g.store.get? k = some e ∧ e.alive b0.g.now = true ∧
+      b3.res = b2.res.set i (.value (some e.value) :: b2.res.getD i []) := by
+  have hlt : i < b0.cl.length := by
+    rcases Nat.lt_or_ge i b0.cl.length with h | h
+    · exact h
+    · rw [List.getElem?_eq_none h] at hpc; cases hpc
+  rcases (C02_layerB_get_store hpc hget).1 with ⟨e, he, ha, hcl, _⟩ | ⟨_, hcl, _⟩
+  · refine ⟨e, he, ha, ?_⟩
+    have h2 : b2.cl[i]? = some (.getPool k e.value) := by
+      rw [hsame, hcl, List.getElem?_set_self hlt]
+    exact (C02_layerB_get_pool h2 hpool).2
+  · exfalso
+    apply hbusy
+    rw [hcl, List.getElem?_set_self hlt]
+
+/-! ## concrete interleavings (non-vacuity) -/
+
+/-- runs a list of actions, each with its own oracle -/
+def runB : BState → List (Act × Oracle) → Except String BState
+  | b, [] => .ok b
+  | b, (a, o) :: rest =>
+    match stepB b a o with
+    | .ok (b', _) => runB b' rest
+    | .error m => .error m
+
+theorem reach_runB {cfg : Cfg} {now : Nat} {seeds : List Nat} {clients : Nat} :
+    ∀ (l : List (Act × Oracle)) {b b' : BState}, Reach cfg now seeds clients b → runB b l = .ok b' →
+      Reach cfg now seeds clients b' := by
+  intro l
+  induction l with
+  | nil => intro b b' hr h; simp only [runB, Except.ok.injEq] at h; subst h; exact hr
+  | cons x l ih =>
+    intro b b' hr h
+    obtain ⟨a, o⟩ := x
+    simp only [runB] at h
+    split at h
+    · rename_i b1 o1 hs
+      exact ih (.step hr hs) h
+    · cases h
+
+def cfgEx : Cfg := { maxWeight := 10, shards := 1, cmdCap := 4, poolSize := 1, bufSize := 2, counters := 2 }
+
+/-- the empty oracle -/
+def noO : Oracle := {}
+
+/-- a whole call of client `i`: `n` actions after the issue -/
+def call (i : Nat) (r : Req) (n : Nat) : List (Act × Oracle) := (.issue i r, noO) :: List.replicate n (.client i, noO)
+
+def workerN (n : Nat) : List (Act × Oracle) := List.replicate n (.worker, noO)
+
+/-- put key 1 (weight 3, TTL 5 ns) and let the worker run it to the end; let it expire; the sweeper takes it out of
+    `kw` and stops BEFORE `wu.sub`; a second put (key 2, weight 4) is run by the worker up to just BEFORE `wu.add`;
+    then client 1 reads `total_weight_used`. -/
+def midFlight : List (Act × Oracle) :=
+  call 0 (.putW 1 100 3 (some 5)) 4 ++ workerN 7 ++ [(.advance 10, noO)] ++
+  [(.sweeper none, noO), (.sweeper (some 1), noO), (.sweeper none, noO)] ++
+  call 0 (.putW 2 200 4 none) 4 ++ workerN 4 ++ call 1 .weight 2
+
+example :
+    (match runB (BState.init cfgEx 0 [1, 2, 3, 4] 2) midFlight with
+     | .ok b =>
+       (match b.w, b.sw with
+        | .add _, .sub _ _ _ _ _ => true
+        | _, _ => false) &&
+       decide (pendingAdd b = 4 ∧ pendingSub b = 3 ∧ b.g.adm.used = 3 ∧ sumW b.g.adm.kw = 4 ∧
+               b.g.adm.used = sumW b.g.adm.kw - pendingAdd b + pendingSub b ∧
+               b.g.adm.used ≠ sumW b.g.adm.kw ∧ 0 ≤ b.g.adm.used ∧ b.g.adm.used ≤ b.g.adm.max) &&
+       (match b.res[1]? with
+        | some [Out.weight w] => decide (w = 3 ∧ 0 ≤ w ∧ w ≤ 10)
+        | _ => false)
+     | _ => false) = true := by decide
+
+/-- the same, as a reachable state: the accounting identity holds with BOTH corrections non-zero, the exact
+    identity `used = Σ kw` does NOT hold at this instant, and the total a client reads lies within `[0, max]` -/
+theorem layerB_midflight_reachable :
+    ∃ b, Reach cfgEx 0 [1, 2, 3, 4] 2 b ∧ pendingAdd b ≠ 0 ∧ pendingSub b ≠ 0 ∧
+      b.g.adm.used = sumW b.g.adm.kw - pendingAdd b + pendingSub b ∧ b.g.adm.used ≠ sumW b.g.adm.kw ∧
+      0 ≤ b.g.adm.used ∧ b.g.adm.used ≤ cfgEx.maxWeight := by
+  have hrun : ∃ b, runB (BState.init cfgEx 0 [1, 2, 3, 4] 2) midFlight = .ok b ∧ pendingAdd b ≠ 0 ∧
+      pendingSub b ≠ 0 ∧ b.g.adm.used = sumW b.g.adm.kw - pendingAdd b + pendingSub b ∧
+      b.g.adm.used ≠ sumW b.g.adm.kw ∧ 0 ≤ b.g.adm.used ∧ b.g.adm.used ≤ cfgEx.maxWeight := by
+    refine ⟨_, rfl, ?_⟩
+    decide
+  obtain ⟨b, hr, hrest⟩ := hrun
+  exact ⟨b, reach_runB _ .init hr, hrest⟩
+
+/-- keys 1 (weight 3, TTL) and 2 (weight 3) are in; key 1 expires and the sweeper stops before its `wu.sub`, owning
+    shard 0; a put of weight 8 makes the worker evict key 2 and stop at `store.remove`, owning `weight_used` -/
+def lockedRun : List (Act × Oracle) :=
+  call 0 (.putW 1 100 3 (some 5)) 4 ++ workerN 7 ++ call 0 (.putW 2 200 3 none) 4 ++ workerN 6 ++
+  [(.advance 10, noO), (.sweeper none, noO), (.sweeper (some 1), noO), (.sweeper none, noO)] ++
+  call 0 (.putW 3 300 8 none) 4 ++
+  [(.worker, noO), (.worker, noO), (.worker, { dk := [false] }),
+   (.worker, { dk := [false], ids := [2], pops := [some 2] }), (.worker, noO), (.worker, noO)]
+
+/-- Non-vacuity of C18 (a), (c): the worker owns `weight_used` at `evStore`, the sweeper owns shard 0 and waits at
+    `wu.sub` for exactly that lock; the worker's action is enabled, and after it the sweeper's is. -/
+example :
+    (match runB (BState.init cfgEx 0 [1, 2, 3, 4] 2) lockedRun with
+     | .ok b =>
+       decide (b.wuOwner = some .worker ∧ b.ttlOwner = some 0) &&
+       (match b.w, b.sw with
+        | .evStore _ _ _ _ _, .sub _ _ _ _ _ => true
+        | _, _ => false) &&
+       (match sweeperAct b none with
+        | .error m => m == "not enabled: weight_used is locked"
+        | _ => false) &&
+       (match workerAct b noO with
+        | .ok (b1, _) => decide (b1.wuOwner = none) && (match sweeperAct b1 none with | .ok _ => true | _ => false)
+        | _ => false) &&
+       decide (b.g.adm.used = 3 ∧ sumW b.g.adm.kw = 0 ∧ pendingAdd b = 0 ∧ pendingSub b = 3 ∧ 0 ≤ b.g.adm.used)
+     | _ => false) = true := by decide
+
+/-- **The Layer B witness of the recorded defect** (full C01 is false): put key 1 with weight 5, `put_or_update` it
+    to weight 300; the worker's `kw.update` action is an `UnsafeUpdate`, and after it the total is 300 > 10. -/
+def overRun : List (Act × Oracle) :=
+  call 0 (.putW 1 100 5 none) 4 ++ workerN 6 ++ call 0 (.upsert 1 none (some 300) none false) 4 ++ workerN 1
+
+theorem C01_layerB_counterexample :
+    ∃ b b', Reach cfgEx 0 [1, 2, 3, 4] 2 b ∧ BBound b ∧ UnsafeUpdate b .worker ∧
+      stepB b .worker noO = .ok (b', noO) ∧ b'.g.adm.used = 300 ∧ ¬ b'.g.adm.used ≤ cfgEx.maxWeight ∧ ¬ BBound b' := by
+  have hrun : ∃ b, runB (BState.init cfgEx 0 [1, 2, 3, 4] 2) overRun = .ok b ∧
+      b.w = .update 1 300 (some 1) ∧ b.g.adm.kw.get? 1 = some ⟨1, 1, 5⟩ ∧ b.g.adm.used = 5 ∧ b.g.adm.max = 10 ∧
+      b.wuOwner = none := by
+    refine ⟨_, rfl, ?_⟩
+    exact ⟨rfl, by decide, by decide, by decide, by decide⟩
+  obtain ⟨b, hr, hw, hg, hu, hm, ho⟩ := hrun
+  have hstep : ∃ b', stepB b .worker noO = .ok (b', noO) ∧ b'.g.adm.used = 300 ∧ b'.g.adm.max = 10 ∧ b'.w = .recv := by
+    simp only [stepB, workerAct, hw, wuFree, ho, workerUpdateWeight, hg, hu]
+    exact ⟨_, rfl, by simp [finishCmd], hm, rfl⟩
+  obtain ⟨b', hs, hu', hm', hw'⟩ := hstep
+  refine ⟨b, b', reach_runB _ .init hr, ?_, ⟨rfl, 1, 300, some 1, hw, ⟨1, 1, 5⟩, hg, ?_⟩, hs, hu', ?_, ?_⟩
+  · simp only [BBound, hw, hu, hm]; decide
+  · rw [hu, hm]; decide
+  · rw [hu']; decide
+  · simp only [BBound, hw', hu', hm']; decide
+
+/-- Non-vacuity of C04: `delete(1)` marks the entry soft (`delete.mark`), and the entry is still soft two actions
+    later; the worker's `store.remove` then takes it out. -/
+example :
+    (match runB (BState.init cfgEx 0 [1, 2, 3, 4] 2) (call 0 (.putW 1 100 5 none) 4 ++ workerN 6 ++ call 0 (.delete 1) 2) with
+     | .ok b =>
+       (match b.g.store.get? 1 with
+        | some e => e.soft && decide (e.id = 1)
+        | none => false) &&
+       (match runB b [(.client 0, noO), (.worker, noO)] with
+        | .ok b1 => (match b1.g.store.get? 1 with | some e => e.soft | none => false) &&
+            (match runB b1 [(.worker, noO)] with
+             | .ok b2 => (b2.g.store.get? 1).isNone
+             | _ => false)
+        | _ => false)
+     | _ => false) = true := by decide
+
+/-- Non-vacuity of C02: a `get(1)` of client 1 that hits — `store.get` picks up 100, `pool.add` returns it. -/
+example :
+    (match runB (BState.init cfgEx 0 [1, 2, 3, 4] 2)
+        (call 0 (.putW 1 100 5 none) 4 ++ workerN 6 ++ [(.issue 1 (.get 1), noO), (.client 1, noO), (.client 1, noO)]) with
+     | .ok b =>
+       (match b.cl[1]? with
+        | some (CPc.getPool k v) => decide (k = 1 ∧ v = 100)
+        | _ => false) &&
+       (match runB b [(.client 1, { pool := [0] })] with
+        | .ok b1 => (match b1.res[1]? with
+            | some [Out.value (some v)] => decide (v = 100)
+            | _ => false)
+        | _ => false)
+     | _ => false) = true := by decide
+
+/-- Non-vacuity of `C01_layerB_bound_partial'`, `C05_layerB_at_rest`: a `ReachSafe` state that is at rest. -/
+example : ∃ b, ReachSafe cfgEx 0 [1, 2, 3, 4] 2 b ∧ pendingAdd b = 0 ∧ pendingSub b = 0 :=
+  ⟨_, .init, rfl, rfl⟩
+
 end B
 end Cached
